@@ -501,6 +501,13 @@ pub fn run(args: &Args) -> Report {
                     &|h| h.set_return(Some(ret2.clone())),
                     &|rig| rig.client().body_binary(body.clone()).map(read_all),
                     &|rig| block_on(rig.async_client().body_binary(body.clone())).map(read_all));
+                // the library's own writer for byte slices (blocking) next to the harness writer
+                let flat = body.0.concat();
+                let ret4 = ret.clone();
+                run_case(&mut cx, "body_binary", "body:slice-writer", &chunking, vec![sent.clone()], want.clone(), false,
+                    &|h| h.set_return(Some(ret4.clone())),
+                    &|rig| rig.client().body_binary(&flat[..]).map(read_all),
+                    &|rig| block_on(rig.async_client().body_binary(body.clone())).map(read_all));
                 let ret3 = ret.clone();
                 run_case(&mut cx, "bin_alias", "body", &chunking, vec![sent], want, false,
                     &|h| h.set_return(Some(ret3.clone())),
